@@ -80,27 +80,19 @@ Section Vec.
         assert (RW1 : RW lens (-1) s1 (v_received v)).
         { intros F0. right. repeat split; auto. lia. }
         destruct (classify_cases (s_errno s1)) as [[K Ee] | [[K Ee] | [K [Ne1 Ne2]]]]; rewrite K.
-        + (* would block *)
-          destruct nb0 eqn:N; cbn [negb].
-          * change (Final lens sh true (total_or (-1) (v_received v)) s1)
-              with (FinalF lens sh true true (total_or (-1) (v_received v)) s1).
-            eapply finalF_total_or; [exact G1 | exact NB1 | exact RW1 |].
-            intros _ F0. rewrite F0 in RW1. destruct (RW1 eq_refl) as [? | (? & _ & ? & _)]; [lia | auto].
-          * destruct (do_wait limit start s1) as [[ok left'] s3] eqn:DW.
-            assert (G1' : Good lens sh false false s1 (v_received v))
-              by (eapply goodL_nb0_false; [reflexivity | exact G1]).
-            destruct (good_wait lens sh false _ _ _ _ _ _ _ eq_refl G1' DW) as (G3 & NB3 & E3 & Q3).
-            assert (RW3 : RW lens (-1) s3 (v_received v)).
-            { intros F0. destruct (RW1 F0) as [? | (? & ? & ? & ?)]; [lia|]. right. rewrite Q3, E3. auto. }
-            destruct ok.
-            -- split; [|split; [reflexivity | exists (s_errno s1); split; [exact FE | left; exact Ee]]].
-               unfold WInv. cbn [v_r v_received v_offset v_arg v_left].
-               split; [exact G3|]. split; [congruence|]. split; [exact RW3|]. split; [exact SG|].
-               split; [reflexivity | apply ainv_suffix].
-            -- destruct fl.
-               ++ apply (final_restore lens sh false). apply finalF_exact; [exact G3 | congruence].
-               ++ apply (final_restore lens sh false).
-                  eapply finalF_total_or; [exact G3 | congruence | exact RW3 | intros; discriminate].
+        + (* would block: waits, whatever the caller's mode *)
+          destruct (do_wait limit start s1) as [[ok left'] s3] eqn:DW.
+          destruct (good_wait lens sh nb0 _ _ _ _ _ _ _ _ G1 DW) as (G3 & NB3 & E3 & Q3).
+          assert (RW3 : RW lens (-1) s3 (v_received v)).
+          { intros F0. destruct (RW1 F0) as [? | (? & ? & ? & ?)]; [lia|]. right. rewrite Q3, E3. auto. }
+          destruct ok.
+          * split; [|split; [reflexivity | exists (s_errno s1); split; [exact FE | left; exact Ee]]].
+            cbn [v_r v_received v_offset v_arg v_left].
+            split; [exact G3|]. split; [congruence|]. split; [exact RW3|]. split; [exact SG|].
+            split; [reflexivity | apply ainv_suffix].
+          * destruct fl.
+            -- apply final_restore. apply finalF_exact; [exact G3 | congruence].
+            -- apply final_restore. eapply finalF_total_or; [exact G3 | congruence | exact RW3].
         + (* interrupted *)
           split; [|split; [reflexivity | exists (s_errno s1); split; [exact FE | right; exact Ee]]].
           unfold WInv. cbn [v_r v_received v_offset v_arg v_left].
@@ -108,7 +100,7 @@ Section Vec.
           split; [exact SG|]. split; [reflexivity | apply ainv_suffix].
         + (* hard error *)
           apply final_restore.
-          eapply finalF_total_or with (wb := false); [| exact NB1 | exact RW1 | intros; discriminate].
+          eapply finalF_total_or; [| exact NB1 | exact RW1].
           rewrite wb_vec in G1. replace (s_errno s1 =? EAGAIN) with false in G1 by lia. exact G1.
       - (* the call moved m bytes *)
         rewrite E. subst r.
@@ -189,7 +181,7 @@ Section Vec.
     end.
   Proof.
     induction segs as [|l suf IH]; intros pre sc received r index left s HL W G NB RWr LV; cbn [vec_for].
-    - apply final_restore. eapply finalF_total_or; [exact G | exact NB | exact RWr | intros; discriminate].
+    - apply final_restore. eapply finalF_total_or; [exact G | exact NB | exact RWr].
     - assert (HL' : lens = (pre ++ [l]) ++ suf) by (rewrite <- app_assoc; exact HL).
       assert (LEN' : S (List.length pre) = List.length (pre ++ [l])) by (rewrite app_length; cbn; lia).
       assert (SUM' : (sumn pre + l)%nat = sumn (pre ++ [l])) by (rewrite sumn_app; cbn [sumn]; lia).
